@@ -29,21 +29,45 @@ def setup_subject():
     stub = st['scan'].stub_dir()
     for n in ('GLib-2.0', 'GObject-2.0', 'Gio-2.0'):
         st['csan'].compile_gir(info, os.path.join(stub, n + '.gir'), os.path.join(d, n + '.typelib'), [stub])
+    # a dependency in two builds: the one the subject typelibs are compiled against, and a later one that lost a type
+    # (references to it become unresolved infos at run time)
+    gd = os.path.join(d, 'gir')
+    os.makedirs(gd)
+    os.makedirs(os.path.join(d, 'skew'))
+    dep = (GIR_HEAD + '<namespace name="Dep" version="1.0" c:identifier-prefixes="Dep" c:symbol-prefixes="dep">'
+           '<record name="Thing" c:type="DepThing"><field name="a" writable="1"><type name="gint" c:type="gint"/></field></record>'
+           '<callback name="Func" c:type="DepFunc"><return-value transfer-ownership="none"><type name="none" c:type="void"/></return-value></callback>'
+           '<record name="Kept" c:type="DepKept"><field name="a" writable="1"><type name="gint" c:type="gint"/></field></record></namespace></repository>\n')
+    with open(os.path.join(gd, 'Dep-1.0.gir'), 'w') as f:
+        f.write(dep)
+    st['csan'].compile_gir(info, os.path.join(gd, 'Dep-1.0.gir'), os.path.join(d, 'Dep-1.0.typelib'), [gd])
+    os.makedirs(os.path.join(d, 'gir2'))
+    with open(os.path.join(d, 'gir2', 'Dep-1.0.gir'), 'w') as f:
+        f.write(dep.replace('name="Thing"', 'name="Renamed"').replace('name="Func"', 'name="OtherFunc"'))
+    st['csan'].compile_gir(info, os.path.join(d, 'gir2', 'Dep-1.0.gir'), os.path.join(d, 'skew', 'Dep-1.0.typelib'), [os.path.join(d, 'gir2')])
     import atexit
     pid = os.getpid()
     atexit.register(lambda: shutil.rmtree(d, ignore_errors=True) if os.getpid() == pid else None)
     _st['depdir'] = d
+    _st['depgir'] = gd
     return _st
 
 
-def sections_gir(rng, mask, k):
+def sections_gir(rng, mask, k, dep=False):
     """an object and an interface whose variable-length sections are empty or not according to mask"""
     def fn(tag, name, extra=''):
         return ('<%s name="%s" c:identifier="sec_%s_%s"%s><return-value transfer-ownership="none"><type name="gint" c:type="gint"/></return-value>'
                 '<parameters><instance-parameter name="self" transfer-ownership="none"><type name="Obj" c:type="SecObj*"/></instance-parameter>'
                 '<parameter name="x" transfer-ownership="none"><attribute name="p.%s" value="1"/><type name="gint" c:type="gint"/></parameter></parameters></%s>'
                 % (tag, name, tag.replace('-', '_'), name, extra, name, tag))
-    L = [GIR_HEAD, '<include name="GObject" version="2.0"/>', '<namespace name="Sec" version="1.0" c:identifier-prefixes="Sec" c:symbol-prefixes="sec">']
+    L = [GIR_HEAD, '<include name="GObject" version="2.0"/>'] + (['<include name="Dep" version="1.0"/>'] if dep else []) + \
+        ['<namespace name="Sec" version="1.0" c:identifier-prefixes="Sec" c:symbol-prefixes="sec">']
+    if dep:
+        L.append('<function name="use_dep" c:identifier="sec_use_dep"><return-value transfer-ownership="none"><type name="Dep.Kept" c:type="DepKept*"/></return-value>'
+                 '<parameters><parameter name="t" transfer-ownership="none"><type name="Dep.Thing" c:type="DepThing*"/></parameter>'
+                 '<parameter name="f" transfer-ownership="none" scope="call"><type name="Dep.Func" c:type="DepFunc"/></parameter></parameters></function>')
+        L.append('<record name="DepUser" c:type="SecDepUser"><field name="t" writable="1"><type name="Dep.Thing" c:type="DepThing*"/></field>'
+                 '<field name="l" writable="1"><type name="GLib.List" c:type="GList*"><type name="Dep.Thing"/></type></field></record>')
     nif = [0, 1, 2, 3][mask & 3] if mask & 1 else (2 if mask & 2 else 0)
     for i in range(3):
         L.append('<interface name="If%d" c:type="SecIf%d" glib:type-name="SecIf%d" glib:get-type="sec_if%d_get_type"/>' % (i, i, i, i))
@@ -136,9 +160,11 @@ def run_case(case):
     res = {'viol': [], 'classes': [], 'hits': collections.Counter()}
     viol, hits = res['viol'], res['hits']
     stub = st['scan'].stub_dir()
+    depmode = None
     if mode == 'sections':
         mask = idx % 256
-        gir = sections_gir(rng, mask, rng.choice([1, 2, 3, 5]))
+        depmode = rng.choice([None, None, 'same', 'skew'])
+        gir = sections_gir(rng, mask, rng.choice([1, 2, 3, 5]), dep=depmode is not None)
         nsname, kind = 'Sec', 'sections'
     elif mode.startswith('replay:'):
         rep = json.load(open(mode[7:]))
@@ -158,9 +184,12 @@ def run_case(case):
         tdir = os.path.join(d, 'tl')
         os.makedirs(tdir)
         for n in os.listdir(st['depdir']):
-            os.symlink(os.path.join(st['depdir'], n), os.path.join(tdir, n))
+            if n.endswith('.typelib'):
+                os.symlink(os.path.join(st['depdir'], 'skew' if (depmode == 'skew' and n.startswith('Dep-')) else '', n), os.path.join(tdir, n))
         tpath = os.path.join(tdir, '%s-1.0.typelib' % nsname)
-        rc, so, se = csan.compile_gir(info, gpath, tpath, [stub])
+        rc, so, se = csan.compile_gir(info, gpath, tpath, [stub, st['depgir']])
+        if depmode:
+            hits['dependency:' + depmode] += 1
         if rc != 0 or not os.path.exists(tpath):
             hits['not_compilable'] += 1       # C06/C15 judge the compiler; here only loadable typelibs matter
             return res
@@ -226,7 +255,7 @@ def run_case(case):
             if groot is not None:
                 hits['generated'] += 1
                 from .. import girclosure
-                incs, partial = girclosure.load_includes(girx.parse_string(gir), [stub])
+                incs, partial = girclosure.load_includes(girx.parse_string(gir), [stub, st['depgir']])
                 gexp = tlexpect.Expect(groot, incs).model()
                 seen = set()
                 for key, what in tlexpect.compare(gexp, dec):
